@@ -670,6 +670,8 @@ class J1939_22:
                 # cancel transmission
                 self._snd_buffer[buffer_hash]['state'] = self.SendBufferState.TRANSMISSION_FINISHED
                 self._snd_buffer[buffer_hash]['deadline'] = time.time()
+                # the job thread releases the session: it must not sleep on until the old deadline
+                self.__job_thread_wakeup()
             # TODO: any more abort responses?
         else:
             raise RuntimeError('Received TP.CM with unknown control_byte %d', control_byte)
